@@ -141,9 +141,23 @@ def absent_keywords(db, rnd, scheme, cfg):
     cands = [("random", sc.rand_kw(rnd, 8)),
              ("prefix", w[:-1]), ("suffix", w[1:]), ("extended", w + b"\x01"), ("extended0", w + b"\x00"),
              ("flip", w[:-1] + bytes([w[-1] ^ 1])), ("double", (w + w)[:maxlen])]
+    # arithmetic neighbours (schemes that turn the keyword into an integer and pack it next to a counter): the keyword read as
+    # a big-endian integer plus / minus a small number, for the keyword above and for the one with the longest posting list
+    def shift(x, d):
+        v = int.from_bytes(x, "big") + d
+        if v <= 0 or v >= 256 ** len(x):
+            return b""
+        return v.to_bytes(len(x), "big")
+    wl = max(kws, key=lambda k: (len(db[k]), k))
+    for tag, base in (("", w), ("-longest", wl)):
+        for d in (1, 2, 3, -1, 256, -256):
+            cands.append(("arith%+d%s" % (d, tag), shift(base, d)))
+    cands += [("prefix-longest", wl[:-1]), ("extended0-longest", wl + b"\x00"), ("flip-longest", wl[:-1] + bytes([wl[-1] ^ 1]))]
     out = []
+    seen = set()
     for cls, k in cands:
-        if k and k[0] != 0 and k not in db and len(k) <= maxlen:
+        if k and k[0] != 0 and k not in db and len(k) <= maxlen and k not in seen:
+            seen.add(k)
             out.append((cls, k))
     return out
 
